@@ -12,7 +12,8 @@ IMPORTS = "From Ford Require Import Base.Str Sem.Access Sem.Display Corr.C05."
 CASE_T = "case"
 THEOREMS = ["C05_prune_exact", "C05_visible_sound", "C05_pages", "C05_display_inherit",
             "C05_constructor_permission_matters", "C05_fixed_enum", "C05_fixed_internals_enum", "C05_fixed_common",
-            "C05_fixed_namelist", "C05_fixed_final", "C05_fixed_file_display", "C05_fixed_doc_place"]
+            "C05_fixed_namelist", "C05_fixed_final", "C05_fixed_file_display", "C05_fixed_doc_place",
+            "C05_fixed_module_modprocedure"]
 REGIONS = {}      # no recorded finding is open; bit 64 = the tree has a shape FORD cannot produce
 FORD_LISTS = ["modules", "submodules", "programs", "blockdata", "functions", "subroutines", "types", "interfaces",
               "absinterfaces", "variables", "enums", "common", "namelists", "modprocedures", "modfunctions",
@@ -370,6 +371,10 @@ FINDINGS = {
     "file-display-not-inherited": lambda: not _parse(
         "!! display: private\n!! text\nmodule m\n  integer, private :: v\n    !! doc\nend module m\n",
         display=["public"]).modules[0].variables,
+    "module-modprocedure-unfiltered": lambda: bool(_parse(
+        "module m\n  private\n  interface\n    module subroutine s(a)\n      integer, intent(in) :: a\n"
+        "    end subroutine s\n  end interface\ncontains\n  module procedure s\n    !! doc\n  end procedure s\n"
+        "end module m\n", display=["public"]).modules[0].modprocedures),
     "interface-doc-place": lambda: not _parse(
         "module m\n  abstract interface\n    subroutine cb(x)\n      !! doc\n      integer :: x\n"
         "    end subroutine cb\n  end interface\nend module m\n", display=["public"], hide_undoc=True).modules[0].absinterfaces,
@@ -412,7 +417,7 @@ def run(chk):
     cases = exhaustive_cases()
     total = len(cases)
     if quick:
-        cases = rng.sample(cases, 190)
+        cases = rng.sample(cases, 150)
     by_text = collections.defaultdict(list)
     for level, meta, cfg in cases:
         by_text[(level, tuple(meta))].append(cfg)
@@ -432,7 +437,7 @@ def run(chk):
 
     # (2) random projects (enums, common blocks, namelists, final procedures, submodules with module-procedure
     #     implementations, internal procedures, metadata at every level) under random configurations
-    for k in range(18 if quick else 400):
+    for k in range(16 if quick else 400):
         files = D.gen_project(rng)
         texts = D.render_project(files)
         cfgs = all_cfgs(rng, 6 if quick else 12)
